@@ -284,5 +284,4 @@ package sender
 //@   requires[C16] [tags-sorted] tagsSorted(targets)
 //@   requires[C16] [table-points-to-first-of-run] tableFirst(tagTable, targets) && len(targets) == head.ChecksumCount
 //@   loop[C16] 1: invariant [run-scanned-so-far] ok && 0 <= j && tagTable[tag] <= j && (forall q :: tagTable[tag] <= q && q < j && q < len(targets) ==> targets[q].tag == tag)
-//@   at[C16] (*sender.mapStruct).ptr@3: assert [whole-run-compared] !ok || st.lastMatch == offset + 1 || j >= head.ChecksumCount || targets[j].tag != tag
-//@   at[C16] (*sender.mapStruct).ptr@3: assert [no-candidate-outside-the-scan] ok && st.lastMatch != offset + 1 ==> (forall q :: 0 <= q && q < len(targets) && targets[q].tag == tag ==> tagTable[tag] <= q && q < j)
+//@   loop[C16] 1: exit [whole-run-compared] j >= head.ChecksumCount || targets[j].tag != tag
